@@ -18,6 +18,9 @@ import os
 import re
 import subprocess
 import sys
+import warnings
+
+warnings.simplefilter("ignore", SyntaxWarning)
 
 HERE = os.path.dirname(os.path.abspath(__file__))
 VERIF = os.path.dirname(HERE)
